@@ -23,6 +23,8 @@
 (***************************************************************************)
 EXTENDS SfHandle, TLC, Json, IOUtils
 
+SX == INSTANCE SequencesExt
+
 Tr == ndJsonDeserialize(IOEnv.TRACE)
 
 VARIABLES l,       \* next line of the trace
@@ -69,6 +71,70 @@ CallOf(e) == CASE e.op = "read"  -> [op |-> "read", T |-> e.T, unit |-> e.unit, 
 \* the public error query agrees with the hook, and the hook agrees with the model's view of have_written
 HookOK(s, e) == /\ Has(e, "err") => (e.err # 0) = (e.st.er # 0)
                 /\ e.st.md = s.mode
+
+-----------------------------------------------------------------------------
+\* C12: metadata set before the audio survives close and re-open (only the documented normalisations apply)
+WavFamily == {M_WAV, M_WAVEX, M_RF64}
+\* which string types each container stores (transcribed from wavlike_write_strings, aiff_write_strings, caf_write_strings)
+StrTypes(m) == CASE m \in WavFamily -> {1, 2, 3, 4, 5, 6, 7, 9, 16}
+                 [] m = M_AIFF -> {1, 2, 3, 4, 5}
+                 [] m = M_CAF -> {1, 2, 3, 4, 5, 6, 7, 8, 9, 16}
+                 [] OTHER -> {}
+\* support matrix of the structured items
+Supports(m, kind) == CASE kind = "bext" -> m \in WavFamily
+                       [] kind = "cart" -> m \in {M_WAV, M_RF64}
+                       [] kind = "cues" -> m \in {M_WAV, M_WAVEX, M_AIFF}
+                       [] kind = "inst" -> m \in {M_WAV, M_WAVEX, M_AIFF}
+                       [] kind = "chmap" -> m \in {M_WAVEX, M_RF64, M_CAF}
+                       [] OTHER -> FALSE
+IsPrefixOf(a, b) == Len(a) <= Len(b) /\ SubSeq(b, 1, Len(a)) = a
+\* line ends: CR LF, LF and CR all become CR LF (coding history, cart tag text)
+CRLF(t) == LET step(acc, c) ==
+                 IF c = 10 THEN (IF acc.cr THEN [out |-> acc.out, cr |-> FALSE] ELSE [out |-> acc.out \o <<13, 10>>, cr |-> FALSE])
+                 ELSE IF c = 13 THEN [out |-> acc.out \o <<13, 10>>, cr |-> TRUE]
+                 ELSE [out |-> Append(acc.out, c), cr |-> FALSE]
+           IN SX!FoldLeft(step, [out |-> <<>>, cr |-> FALSE], t).out
+\* software string: the library appends " (libsndfile-x.y.z)" and cuts the result to 127 bytes
+SoftwareNorm(set, got) == LET n == Min(Len(set), Len(got)) IN
+                          /\ SubSeq(set, 1, n) = SubSeq(got, 1, n)
+                          /\ (Len(got) >= Len(set) \/ Len(got) = 127)
+Keep(e) == [k \in (DOMAIN e \ {"s", "i", "h", "st", "flen", "err", "ret", "io", "op"}) |-> e[k]]
+MetaKey(e) == IF e.op \in {"setstr", "getstr"} THEN <<"str", e.type>> ELSE <<e.kind>>
+
+SetMetaOK(s, e) ==
+    /\ SamePos(s, ObsOf(e))
+    /\ (s.mode # SFM_READ /\ ~s.hw /\ ~s.relax) =>
+          IF e.op = "setstr" THEN (e.type \in StrTypes(Major(s.fmt)) /\ Len(e.text) > 0) => e.ret = 0
+          ELSE (Supports(Major(s.fmt), e.kind) /\ e.kind # "chmap") => e.ret = 1      \* (a channel map must also fit a layout the container knows)
+SetMetaPost(s, e) ==
+    LET ok == IF e.op = "setstr" THEN e.ret = 0 ELSE e.ret = 1 IN
+    IF ok /\ ~s.hw THEN [Adopt(s, ObsOf(e)) EXCEPT !.meta = (MetaKey(e) :> Keep(e)) @@ s.meta] ELSE Adopt(s, ObsOf(e))
+
+SameFields(a, b, fs) == \A f \in fs : a[f] = b[f]
+\* (the bext version number is chosen by the library from the fields in use)
+BextFields == {"desc", "orig", "oref", "odate", "otime", "trl", "trh", "umid", "lv", "lr", "mtp", "mml", "msl"}
+CartFields == {"cver", "title", "artist", "cut", "client", "cat", "class", "outcue", "sdate", "stime", "edate", "etime", "app", "appver", "user", "level", "timers", "url"}
+CueSame(m, a, b) ==
+    IF m = M_AIFF THEN a.indx = b.indx /\ b.so = a.pos /\ b.name = a.name       \* MARK: id, position, name (position comes back as sample_offset)
+    ELSE a.indx = b.indx /\ a.pos = b.pos /\ a.fcc = b.fcc /\ a.cs = b.cs /\ a.bs = b.bs /\ a.so = b.so   \* 'cue ' chunk: no names
+GetMetaOK(s, e) ==
+    LET m == Major(s.fmt)  key == MetaKey(e) IN
+    (s.mode = SFM_READ /\ ~s.relax /\ key \in DOMAIN s.fmeta) =>
+      LET w == s.fmeta[key] IN
+      CASE e.op = "getstr" ->
+             (e.type \in StrTypes(m) /\ Len(w.text) > 0) =>
+                 (e.null = 0 /\ IF e.type = 3 THEN SoftwareNorm(w.text, e.text) ELSE e.text = w.text)
+        [] e.kind = "bext" -> Supports(m, "bext") =>
+                 (e.ret = 1 /\ SameFields(w, e, BextFields) /\ IsPrefixOf(CRLF(w.hist), e.hist))           \* + the library's own history line
+        [] e.kind = "cart" -> Supports(m, "cart") =>
+                 (e.ret = 1 /\ SameFields(w, e, CartFields) /\ IsPrefixOf(w.tag, e.tag))
+        [] e.kind = "cues" -> Supports(m, "cues") =>
+                 (e.ret = 1 /\ e.count = w.count /\ e.cnt = w.count /\ Len(e.cues) = Len(w.cues)
+                  /\ \A i \in 1..Len(w.cues) : CueSame(m, w.cues[i], e.cues[i]))
+        [] e.kind = "inst" -> Supports(m, "inst") =>
+                 (e.ret = 1 /\ e.base = w.base /\ e.detune = w.detune /\ e.nloops = w.nloops /\ e.loops = w.loops)   \* 'smpl' chunk: note, detune, loops
+        [] e.kind = "chmap" -> Supports(m, "chmap") => (e.ret = 1 /\ e.map = w.map)
+        [] OTHER -> TRUE
 
 -----------------------------------------------------------------------------
 \* C18: signal maxima.  Values are compared exactly: float/double samples are logged as dyadics on the k/1024 grid,
@@ -183,6 +249,8 @@ CallOK(s, cv, e) ==
          [] e.op = "calc"  -> CalcOK(s, cv, c, o) /\ e.st.nd = s.nd /\ e.st.nf = s.nf      \* position and normalisation as they were
                               /\ CalcValsOK(s, cv, e) /\ GetMaxOK(s, cv, e)
          [] e.op = "peakq" -> SamePos(s, o) /\ PeakQOK(s, cv, e)
+         [] e.op \in {"setstr", "setmeta"} -> SetMetaOK(s, e)
+         [] e.op \in {"getstr", "getmeta"} -> SamePos(s, o) /\ GetMetaOK(s, e)
          [] e.op = "setchunk" -> SetChunkOK(s, e)
          [] e.op = "chit"   -> SamePos(s, o) /\ ChItOK(s, e)
          [] e.op = "chnext" -> SamePos(s, o) /\ ChNextOK(s, e)
@@ -198,6 +266,7 @@ CallPost(s, cv, e) ==
       [] e.op = "seek"  -> SeekPost(s, cv, c, o)
       [] e.op = "trunc" -> TruncPost(s, cv, c, o)
       [] e.op = "cmd"   -> CmdPost(s, cv, c, o)
+      [] e.op \in {"setstr", "setmeta"} -> [s |-> SetMetaPost(s, e), cv |-> cv]
       [] e.op = "setchunk" -> [s |-> SetChunkPost(s, e), cv |-> cv]
       [] e.op = "chit"   -> [s |-> ChItPost(Adopt(s, o), e), cv |-> cv]
       [] e.op = "chnext" -> [s |-> ChNextPost(Adopt(s, o), e), cv |-> cv]
@@ -214,7 +283,7 @@ NewHandle(e, cid, B, relax) ==
      B |-> B, gran |-> IsGranular(e.fmt), skb |-> (e.st.sk # 0),      \* (SF_INFO.seekable is zeroed for write handles; the handle itself knows)
      frames |-> IF ModeOf(e.mode) = SFM_WRITE THEN 0 ELSE IF relax THEN Min(e.st.fr, 1000000) ELSE e.st.fr, rpos |-> e.st.rp, wpos |-> e.st.wp, err |-> (e.st.er # 0),
      hw |-> (e.st.hw # 0), auto |-> FALSE, relax |-> relax, cid |-> cid, fid |-> e.fid, route |-> e.route, meta |-> <<>>,
-     wch |-> <<>>, rch |-> <<>>, it |-> [mode |-> "none"], nd |-> e.st.nd, nf |-> e.st.nf]
+     wch |-> <<>>, rch |-> <<>>, it |-> [mode |-> "none"], nd |-> e.st.nd, nf |-> e.st.nf, fmeta |-> <<>>]
 
 OpenFailedOK(e) == /\ e.gerr # 0 /\ e.gmsg > 0              \* C09: NULL, global error with a message
                    /\ Get(e, "fdleak", 0) = 0               \* C16: nothing left behind
@@ -273,7 +342,7 @@ OpenEffect(e) ==
          LET cv == cont[f.cid] n == e.fr * e.ch
              cv2 == IF Len(cv.kt) >= n THEN cv
                     ELSE [cv EXCEPT !.val = cv.val \o Rep(0, n - Len(cv.val)), !.kt = cv.kt \o Rep("-", n - Len(cv.kt))] IN
-         /\ hs' = [hs EXCEPT ![h] = [NewHandle(e, f.cid, B, relax) EXCEPT !.rch = Get(f, "chunks", <<>>)]]
+         /\ hs' = [hs EXCEPT ![h] = [NewHandle(e, f.cid, B, relax) EXCEPT !.rch = Get(f, "chunks", <<>>), !.fmeta = Get(f, "meta", <<>>)]]
          /\ cont' = [cont EXCEPT ![f.cid] = cv2]
          /\ ncid' = ncid
     ELSE /\ hs' = [hs EXCEPT ![h] = NewHandle(e, ncid, B, relax)]
@@ -319,7 +388,7 @@ CloseEffect(s, e) ==
        ELSE UNCHANGED <<closed, nclose, canon>>
     /\ files' = IF s.mode = SFM_READ THEN files
                 ELSE [files EXCEPT ![s.fid] = [kind |-> IF s.relax THEN "hostile" ELSE "written", cid |-> s.cid, N |-> s.frames, B |-> s.B,
-                                               fmt |-> s.fmt, ch |-> s.ch, rate |-> s.rate, gen |-> cv.gen, valid |-> TRUE, chunks |-> s.wch]]
+                                               fmt |-> s.fmt, ch |-> s.ch, rate |-> s.rate, gen |-> cv.gen, valid |-> TRUE, chunks |-> s.wch, meta |-> s.meta]]
 
 \* environment copies a backing store (crash image of an open writer, or plain copy of a closed file)
 WriterOf(fid) == {h \in HIDS : hs[h].life = "open" /\ hs[h].fid = fid /\ hs[h].mode # SFM_READ}
